@@ -87,6 +87,9 @@ class Fn:
         raise Unsupported(e, f"constant {v!r}")
 
     def e_Attribute(self, e, env):
+        sa = self.cfg.get("self_attrs", {})
+        if isinstance(e.value, ast.Name) and e.value.id == "self" and e.attr in sa:
+            return cname(e.attr), sa[e.attr][1]
         if isinstance(e.value, ast.Name) and e.value.id == "self" and self.cls:
             fields = self.mod.cfg["classes"][self.cls]["fields"]
             if e.attr in fields:
@@ -237,6 +240,8 @@ class Fn:
                 t = f"(mem {lt} {rt})"
             elif rty == "dict":
                 t = f"(dict_has {rt} {lt})"
+            elif rty == "str" and self.expr(L, env)[1] == "str":
+                t = f"(str_contains {lt} {rt})"
             else:
                 raise Unsupported(e, f"`in` on type {rty}")
             return (t if isinstance(op, ast.In) else f"(negb {t})"), "bool"
@@ -308,6 +313,18 @@ class Fn:
             return "[]", "dict"
         if name == "isinstance":
             raise Unsupported(e, "isinstance outside a recognised assert")
+        if name == "re.sub" and len(args) == 3:
+            st, sty = self.expr(args[2], env)
+            rt, rty = self.expr(args[1], env)
+            if sty != "str" or rty != "str":
+                raise Unsupported(e, "re.sub on non-strings")
+            if isinstance(args[0], ast.Constant) and args[0].value == "(\\s|\\r|\\n)+":
+                return f"(re_sub_ws_plus {rt} {st})", "str"
+            if isinstance(args[0], ast.Attribute) and self.dotted(args[0]) in ("self.string_quote", "self.identifier_quote"):
+                pt, _ = self.expr(args[0], env)
+                self.notes.append(f"line {e.lineno}: re.sub with the quote string as pattern is a literal replacement (no regex metacharacter in any dialect's quote)")
+                return f"(str_replace {pt} {rt} {st})", "str"
+            raise Unsupported(e, "re.sub with an unrecognised pattern")
         # configured externs  (python dotted name -> coq name, result type)
         ext = self.mod.cfg.get("externs", {})
         if name in ext:
@@ -339,6 +356,14 @@ class Fn:
                     return f"(dict_values {ot})", "list"
                 if mname == "copy" and not args:
                     return ot, "dict"
+            if oty == "str":
+                if mname == "strip" and not args:
+                    return f"(str_strip {ot})", "str"
+                if mname == "replace" and len(args) == 2:
+                    a0, t0 = self.expr(args[0], env)
+                    a1, t1 = self.expr(args[1], env)
+                    if t0 == "str" and t1 == "str":
+                        return f"(str_replace {a0} {a1} {ot})", "str"
             if oty == "set":
                 if mname == "intersection" and len(args) == 1:
                     return f"(set_inter {ot} {self.iter_of(args[0], env)})", "set"
@@ -429,7 +454,9 @@ class Fn:
         if isinstance(s, ast.Return):
             if s.value is None:
                 return self.ret(self.cfg.get("return_none", "tt"))
-            t, _ = self.expr(s.value, env)
+            t, ty = self.expr(s.value, env)
+            if self.cfg.get("ret_optional") and ty.startswith("opt:"):
+                return t          # already an option
             return self.ret(t)
         if isinstance(s, ast.Raise):
             return self.fail(s, "raise")
@@ -459,6 +486,10 @@ class Fn:
                     and isinstance(c.args[0], ast.Name) and isinstance(c.args[1], ast.Name) and c.args[1].id == "str"):
                 ty = env.get(c.args[0].id)
                 return ty is not None and ty not in ("str", "any")
+        if (isinstance(test, ast.Call) and self.dotted(test.func) == "isinstance" and len(test.args) == 2
+                and isinstance(test.args[0], ast.Name) and isinstance(test.args[1], ast.Tuple)
+                and env.get(test.args[0].id) == "opt:str" and ast.unparse(test.args[1]) == "(str, type(None))"):
+            return True
         if isinstance(test, ast.Call) and self.dotted(test.func) == "isinstance" and len(test.args) == 2:
             a, c = test.args
             if isinstance(a, ast.Name) and isinstance(c, ast.Name):
@@ -617,7 +648,12 @@ class Fn:
         params = []
         ptypes = self.cfg.get("params", {})
         names = [x.arg for x in a.args] + ([a.vararg.arg] if a.vararg else []) + [x.arg for x in a.kwonlyargs]
+        for an, (cty, tag) in self.cfg.get("self_attrs", {}).items():
+            env_name = an
+            params.append(f"({cname(an)} : {cty})")
         for n in names:
+            if n == "self" and self.cfg.get("self_attrs") is not None:
+                continue
             if n == "self":
                 env["self"] = "oset"
                 params.append(f"(self : {self.cls}_t)")
@@ -719,6 +755,31 @@ TARGETS = {
             {"name": "ordered_diff", "params": {"a": LISTA, "b": LISTA}},
         ],
     },
+    "G_Quote": {
+        "file": "data_algebra/sql_model.py",
+        "header": ("From Coq Require Import List String Bool Arith.\nImport ListNotations.\n"
+                   "From DA Require Import Base.PyRT Base.PyStr.\n\n"
+                   "(* quote_identifier / quote_string take the dialect's quote strings (self.identifier_quote, self.string_quote)\n"
+                   "   as explicit parameters; None models the ValueError *)\n"),
+        "footer": "",
+        "items": [
+            {"cls_lookup": "SQLModel", "name": "quote_identifier", "mode": "option", "self_attrs": {"identifier_quote": ("string", "str")},
+             "params": {"identifier": ("string", "str")}},
+            {"cls_lookup": "SQLModel", "name": "quote_string", "self_attrs": {"string_quote": ("string", "str")},
+             "params": {"string": ("string", "str")}},
+            {"name": "_clean_annotation", "ret_optional": True, "params": {"annotation": ("option string", "opt:str")}},
+        ],
+    },
+    "G_QuoteMySQL": {
+        "file": "data_algebra/MySQL.py",
+        "header": ("From Coq Require Import List String Bool Arith.\nImport ListNotations.\n"
+                   "From DA Require Import Base.PyRT Base.PyStr.\n\n"),
+        "footer": "",
+        "items": [
+            {"cls_lookup": "MySQLModel", "name": "quote_identifier", "rename": "mysql_quote_identifier", "mode": "option",
+             "self_attrs": {"identifier_quote": ("string", "str")}, "params": {"identifier": ("string", "str")}},
+        ],
+    },
     "G_MergeOps": {
         "file": "data_algebra/data_ops_utils.py",
         "header": ("From Coq Require Import List String Bool Arith.\nImport ListNotations.\n"
@@ -745,7 +806,11 @@ def generate(target, repo="/repo"):
     defs, notes = [], []
     for item in cfg["items"]:
         cls, name = item.get("cls"), item["name"]
-        fdef = mod.find(name, cls)
+        fdef = mod.find(name, cls or item.get("cls_lookup"))
+        if item.get("rename"):
+            import copy
+            fdef = copy.copy(fdef)
+            fdef.name = item["rename"]
         fn = Fn(mod, fdef, item, cls)
         if name == "__init__":
             # `self` is created by the constructor; the first assignment of every field initialises it
